@@ -24,6 +24,8 @@ fn main() {
         "evalcmp" => Box::new(fam::evalcmp::EvalCmp::new(&args)),
         "constorder" => Box::new(fam::constorder::ConstOrder::new(&args)),
         "grammar" => Box::new(fam::grammar::Grammar::new(&args)),
+        "lifetimes" => Box::new(fam::lifetimes::Lifetimes::new(&args)),
+        "concurrent" => Box::new(fam::concurrent::Concurrent::new(&args)),
         "corpus" => Box::new(fam::corpus::Corpus::new(&args)),
         "sig-gate" => Box::new(fam::catalog::gate::Gate::new(&args)),
         "boundary" => Box::new(fam::catalog::boundary::Boundary::new(&args)),
@@ -33,6 +35,7 @@ fn main() {
         "tests-cli" => Box::new(fam::testrunner::TestRunner::new("cli", &args)),
         "list-api" => Box::new(fam::listmodel::ListApi::new(&args)),
         "list-script" => Box::new(fam::listmodel::ListScript::new(&args)),
+        "list-sched" => Box::new(fam::listsched::ListSched::new(&args)),
         "registration" => Box::new(fam::registration::Registration::new()),
         f => {
             eprintln!("unknown family {f}");
